@@ -847,7 +847,10 @@ impl<T: KeyDetails> KeyDetailsDyn for T {
 }
 
 pub fn check(ctx: &Ctx) {
-    let quick = ctx.tier == Tier::Quick;
+    // the former thorough bounds take seconds: they are the quick tier now; `deep` = thorough
+    let quick = false;
+    #[allow(unused_variables)]
+    let deep = ctx.tier == Tier::Thorough;
     for k in [KeyKind::Ed25519V4, KeyKind::Ed25519V6, KeyKind::EcdsaP256V4, KeyKind::EcdsaP256V6] {
         for s in [1u64, 3, 5, 6] {
             common::cert(k, s);
